@@ -560,7 +560,7 @@ func TestCheck(t *testing.T) {
 		cfg   vcfg
 		depth int
 	}
-	runs := ev.Pick(r, []run{{cfgMixed, 3}, {cfgOld, 2}}, []run{{cfgMixed, 4}, {cfgOld, 4}})
+	runs := ev.Pick(r, []run{{cfgMixed, 3}, {cfgOld, 2}}, []run{{cfgMixed, 4}, {cfgOld, 3}})
 	reduce := r.Quick()
 	var states, transitions int64
 	var rule []string
